@@ -121,8 +121,8 @@ func (r *Report) Note(format string, a ...interface{}) {
 
 type KnownFinding struct {
 	Property string `json:"property"`
-	Key      string `json:"key"`  // obligation key (exact) this finding covers
-	What     string `json:"what"` // what fails (input / call site / history)
+	Key      string `json:"key"`    // obligation key (exact) this finding covers
+	What     string `json:"what"`   // what fails (input / call site / history)
 	Status   string `json:"status"` // "known" | "fixed"
 	Commit   string `json:"commit,omitempty"`
 }
